@@ -86,7 +86,13 @@ func NewCommentReader(r io.Reader, startMatches, endMatches [][]byte, isComments
 
 		var extra int
 		left := data[pos+len(startMatches[index]):]
-		if extra = bytes.Index(left, endMatches[index]); extra == -1 {
+		if isComments[index] {
+			extra = bytes.Index(left, endMatches[index])
+		} else {
+			// For string, the end quote maybe escaped by backslash.
+			extra = indexUnescaped(left, endMatches[index])
+		}
+		if extra == -1 {
 			if atEOF {
 				if requiredMatches[index] {
 					return 0, nil, commentNotMatch
@@ -140,6 +146,20 @@ func (v *commentReader) Read(p []byte) (n int, err error) {
 	}
 
 	return
+}
+
+// get the first position of sep in data, ignore the chars escaped by backslash.
+func indexUnescaped(data, sep []byte) int {
+	for i := 0; i < len(data); i++ {
+		if data[i] == '\\' {
+			i++
+			continue
+		}
+		if bytes.HasPrefix(data[i:], sep) {
+			return i
+		}
+	}
+	return -1
 }
 
 // get the first match in flags.
